@@ -19,7 +19,7 @@ def scenarios(tier):
     s.append(Scenario('mt-12B-slots2-K2', SRC, ['NW=3', 'MT', 'SLOTS=2'], threads=2, K=2, unwind=3, cover=[1, 2], allow_unwound=True))
     s.append(Scenario('mt-12B-slots1-update-K3', SRC, ['NW=3', 'MT', 'WITH_UPDATE'], threads=2, K=3, unwind=3, cover=[1, 2], allow_unwound=True))
     if tier == 'thorough':
-        s.append(Scenario('mt-20B-slots2-update-K3', SRC, ['NW=5', 'MT', 'SLOTS=2', 'WITH_UPDATE'], threads=2, K=3, unwind=3, cover=[1, 2], allow_unwound=True))
+        s.append(Scenario('mt-20B-slots2-update-K3', SRC, ['NW=5', 'MT', 'SLOTS=2', 'WITH_UPDATE'], threads=2, K=3, unwind=6, cover=[1, 2], allow_unwound=True))
         s.append(Scenario('mt-16B-slots3-update-K4', SRC, ['NW=4', 'MT', 'SLOTS=3', 'WITH_UPDATE'], threads=2, K=4, unwind=3, cover=[1, 2], allow_unwound=True))
         s.append(Scenario('mt-12B-2readers-K2', SRC, ['NW=3', 'MT', 'READER2', 'WITH_UPDATE'], threads=3, K=2, unwind=3, cover=[1, 2], allow_unwound=True))
     return s
